@@ -39,7 +39,7 @@ POWERS = [-1, 0, 0.5, 0.5 + 2.0 ** -20, 0.6, 0.8, 1, 1 + 2.0 ** -20, 2]
 
 
 def bounds(tier):
-    return {"n_iter": "1..12" if tier == "quick" else "1..40", "fractions": FRACS, "powers": POWERS,
+    return {"n_iter": "1..20" if tier == "quick" else "1..80", "fractions": FRACS, "powers": POWERS,
             "counts": "None, 0, 1, n_iter-1, n_iter, n_iter+3", "real_models": "logistic, joint, linear: n_iter 4..8"}
 
 
@@ -155,7 +155,7 @@ def run_config(cfg):
 
 
 def configs(tier):
-    n_max = 12 if tier == "quick" else 40
+    n_max = 20 if tier == "quick" else 80
     for n_iter in range(1, n_max + 1):
         counts = sorted({0, 1, max(n_iter - 1, 0), n_iter, n_iter + 3})
         for power in POWERS:
@@ -235,7 +235,7 @@ def run_real(acc, model_name, n_iter, frac, power):
 # ------------------------------------------------------------------------------------------
 
 def shards(tier, seed):
-    n_max = 12 if tier == "quick" else 40
+    n_max = 20 if tier == "quick" else 80
     out = [{"kind": "probe", "n_lo": lo, "n_hi": min(lo + 3, n_max), "tier": tier} for lo in range(1, n_max + 1, 4)]
     reals = [("logistic_d2_s1_diag", 6, 0.5, 0.8), ("joint_d2_s1_diag", 5, 0.4, 1), ("linear_d2_s0_scalar", 4, 0.25, 0.6)]
     if tier == "thorough":
